@@ -1,6 +1,7 @@
 import HH.Sse
 import HH.Avx
 import HH.Neon
+import HH.WasmB
 /-!
 # HH.Footprint — memory-reading variants of the raw-pointer loads (model for C09)
 
@@ -131,6 +132,36 @@ def neonRemainder (m : Mem) (n : Nat) : Option (BitVec 128 × BitVec 128) := do
     let rem ← slice m (n - sizeMod4) sizeMod4
     let packetL ← neonLoadMultipleOfFour m 0 n n
     pure (NeonB.v2new 0 (unorderedLoad3 rem), packetL)
+
+/-! ### Wasm remainder: safe slices and indexing only (`le_u64(x)` indexes `x[0..8]`) — an access
+outside the slice is a PANIC here rather than a fault; same region model -/
+
+def wasmLoadMultipleOfFour (m : Mem) (off len : Nat) : Option (BitVec 128) := do
+  let mask4 := WasmB.v2new 0 0xFFFFFFFF#64
+  let (mask4, dataOff, dataLen, ret) ←
+    (if len ≥ 8 then do
+      let lo ← load64 m off                    -- `le_u64(bytes)`
+      pure (WasmB.slli8 mask4, off + 8, len - 8, WasmB.v2new 0 lo)
+    else pure (mask4, off, len, WasmB.v2new 0 0) : Option _)
+  if dataLen ≥ 4 then
+    let d ← slice m dataOff 4                  -- `data.get(..4)`
+    let last4 := le32 d
+    pure (Wasm.v128_or ret (Wasm.v128_and (Wasm.u32x4 last4 last4 last4 last4) mask4))
+  else pure ret
+
+def wasmRemainder (m : Mem) (n : Nat) : Option (BitVec 128 × BitVec 128) := do
+  let sizeMod4 := n % 4
+  if n > 32 then pure (WasmB.v2new 0 0, WasmB.v2new 0 0)
+  else if n ≥ 16 then
+    let ll ← load64 m 0                        -- `le_u64(bytes)`
+    let lh ← load64 m 8                        -- `le_u64(&bytes[8..])`
+    let packett ← wasmLoadMultipleOfFour m 16 (n - 16)
+    let rem ← slice m ((n - sizeMod4) + sizeMod4 - 4) 4
+    pure (Wasm.i32x4_replace_lane 1 packett (le32 rem), WasmB.v2new lh ll)
+  else
+    let rem ← slice m (n - sizeMod4) sizeMod4
+    let packetL ← wasmLoadMultipleOfFour m 0 n
+    pure (WasmB.v2new 0 (unorderedLoad3 rem), packetL)
 
 /-! ### keys: `AvxHash::force_new` reads the key with an ALIGNED 32-byte load -/
 
